@@ -8,12 +8,14 @@
 package main
 
 import (
+	"bytes"
 	"fmt"
 	"math"
 	"net"
 	"strconv"
 	"strings"
 	"sync"
+	"sync/atomic"
 	"time"
 
 	gio "github.com/whatap/golib/io"
@@ -29,7 +31,8 @@ type op struct {
 	is   []int64
 	us   []uint64
 	bss  [][]byte
-	nilv bool // hand nil instead of empty to the writer
+	nilv bool     // hand nil instead of empty to the writer
+	txt  []string // strings exactly as a read returned them (re-rendered late: a string built over reused memory would change)
 }
 
 var kinds = []string{"bool", "byte", "short", "ushort", "int3", "int", "long5", "long", "float", "double",
@@ -333,7 +336,12 @@ func write(out *gio.DataOutputX, o op) {
 }
 
 // read performs the read matching kind and renders the value in op syntax.
-func read(in *gio.DataInputX, kind string) string {
+func read(in *gio.DataInputX, kind string) string { return readRaw(in, kind).String() }
+
+// readRaw performs the read matching kind and keeps the value exactly as the implementation
+// returned it (byte slices are NOT copied), so that a result which is overwritten by a later read
+// (a reader handing out its own scratch memory) shows when the results are rendered at the end.
+func readRaw(in *gio.DataInputX, kind string) op {
 	o := op{kind: kind}
 	switch kind {
 	case "bool":
@@ -361,13 +369,15 @@ func read(in *gio.DataInputX, kind string) string {
 	case "blob":
 		o.bs = in.ReadBlob()
 	case "text":
-		o.bs = []byte(in.ReadText())
+		o.txt = []string{in.ReadText()}
+		o.bs = []byte(o.txt[0])
 	case "shortBytes":
 		o.bs = in.ReadShortBytes()
 	case "intBytes":
 		o.bs = in.ReadIntBytes()
 	case "textShort":
-		o.bs = []byte(in.ReadTextShortLength())
+		o.txt = []string{in.ReadTextShortLength()}
+		o.bs = []byte(o.txt[0])
 	case "shortArr":
 		for _, x := range in.ReadShortArray() {
 			o.is = append(o.is, int64(x))
@@ -387,11 +397,37 @@ func read(in *gio.DataInputX, kind string) string {
 			o.us = append(o.us, math.Float64bits(x))
 		}
 	case "textArr":
-		for _, x := range in.ReadTextArray() {
+		o.txt = in.ReadTextArray()
+		for _, x := range o.txt {
 			o.bss = append(o.bss, []byte(x))
 		}
 	}
-	return o.String()
+	return o
+}
+
+// renderLate renders the results of a whole program of reads after the last read; when a result
+// changed between the moment it was returned and the end of the program, the slot reads
+// "overwritten(<first>-><last>)" and so never equals what was written.
+func renderLate(raw []op, early []string) string {
+	ss := make([]string, len(raw))
+	for i, o := range raw {
+		if o.kind == "textArr" && o.txt != nil {
+			o.bss = nil
+			for _, x := range o.txt {
+				o.bss = append(o.bss, []byte(x))
+			}
+		} else if len(o.txt) == 1 {
+			o.bs = []byte(o.txt[0])
+		}
+		ss[i] = o.String()
+		if ss[i] != early[i] {
+			ss[i] = "overwritten(" + early[i] + "->" + ss[i] + ")"
+		}
+	}
+	if len(raw) == 0 {
+		return "-"
+	}
+	return strings.Join(ss, ";")
 }
 
 type prog struct {
@@ -423,15 +459,13 @@ func readBack(ops []op, data []byte) string {
 	var res string
 	o := vh.Guard(func() {
 		in := gio.NewDataInputX(data)
-		ss := make([]string, len(ops))
+		raw := make([]op, len(ops))
+		early := make([]string, len(ops))
 		for i, x := range ops {
-			ss[i] = read(in, x.kind)
+			raw[i] = readRaw(in, x.kind)
+			early[i] = raw[i].String()
 		}
-		l := strings.Join(ss, ";")
-		if len(ops) == 0 {
-			l = "-"
-		}
-		res = fmt.Sprintf("ok %s %d", l, in.Available())
+		res = fmt.Sprintf("ok %s %d", renderLate(raw, early), in.Available())
 	})
 	if !o.OK() {
 		return "fail"
@@ -462,15 +496,13 @@ func readBackStream(ops []op, data []byte, rng *vh.Rng) string {
 	var res string
 	o := vh.GuardTimeout(20*time.Second, func() {
 		in := gio.NewDataInputNet(c2)
-		ss := make([]string, len(ops))
+		raw := make([]op, len(ops))
+		early := make([]string, len(ops))
 		for i, x := range ops {
-			ss[i] = read(in, x.kind)
+			raw[i] = readRaw(in, x.kind)
+			early[i] = raw[i].String()
 		}
-		l := strings.Join(ss, ";")
-		if len(ops) == 0 {
-			l = "-"
-		}
-		res = fmt.Sprintf("ok %s 0", l)
+		res = fmt.Sprintf("ok %s 0", renderLate(raw, early))
 	})
 	if !o.OK() {
 		return "fail:" + o.String()
@@ -900,6 +932,88 @@ func main() {
 		}
 		rep.CountN("sweep32", 1<<32)
 		rep.Evaluations += 1 << 32
+	}
+
+	// 9. independent encoders/decoders used at the same time.  The property is stated per encoder;
+	// it must therefore hold for each of several encoders whatever the others are doing (an encoder
+	// that stages bytes in package-level memory is correct alone and wrong in company).  A pool of
+	// programs (every op kind; blobs and texts on both sides of 253/254 and 65535/65536) is encoded
+	// sequentially first; then G goroutines encode and read back their own programs concurrently and
+	// every result must equal the sequential one.
+	{
+		var pool [][]op
+		for _, k := range []string{"blob", "text", "shortBytes", "intBytes", "textShort"} {
+			for _, n := range []int{0, 1, 8, 253, 254, 255, 300, 4097, 20000, 65535, 65536, 70000} {
+				if (k == "shortBytes" || k == "textShort") && n > 32767 {
+					continue
+				}
+				b := make([]byte, n)
+				for i := range b {
+					b[i] = byte('a' + (i+n)%26)
+				}
+				pool = append(pool, []op{{kind: k, bs: b}})
+			}
+		}
+		for i := 0; i < 40; i++ {
+			ops := make([]op, 1+rng.Intn(12))
+			for j := range ops {
+				ops[j] = genOp(rng, false)
+			}
+			pool = append(pool, ops)
+		}
+		refs := make([]prog, len(pool))
+		okRef := vh.Guard(func() {
+			for i, ops := range pool {
+				refs[i] = runWrite(ops)
+			}
+		})
+		const G = 8
+		iters := 400
+		if env.Thorough {
+			iters = 4000
+		}
+		type concBad struct{ what, ops, got string }
+		badCh := make(chan concBad, G)
+		var wg sync.WaitGroup
+		var stop int32
+		for g := 0; okRef.OK() && g < G; g++ {
+			wg.Add(1)
+			go func(g int) {
+				defer wg.Done()
+				for it := 0; it < iters && atomic.LoadInt32(&stop) == 0; it++ {
+					k := (g*7 + it) % len(pool)
+					var p prog
+					var back string
+					oc := vh.Guard(func() {
+						p = runWrite(pool[k])
+						back = readBack(pool[k], p.bytes)
+					})
+					want := fmt.Sprintf("ok %s 0", refs[k].line)
+					switch {
+					case !oc.OK():
+						badCh <- concBad{"panic: " + oc.Panic, refs[k].line, ""}
+					case !bytes.Equal(p.bytes, refs[k].bytes):
+						badCh <- concBad{"encoding differs from the same encoder run alone", refs[k].line, vh.Hex(p.bytes)}
+					case back != want:
+						badCh <- concBad{"read back differs from what was written", refs[k].line, back}
+					default:
+						continue
+					}
+					atomic.StoreInt32(&stop, 1)
+					return
+				}
+			}(g)
+		}
+		go func() { wg.Wait(); close(badCh) }()
+		n := 0
+		for b := range badCh {
+			if n == 0 {
+				rep.Fail("property", "concurrent-encoders", b.what+" while "+fmt.Sprint(G)+" independent encoders run at the same time",
+					map[string]interface{}{"ops": vh.Clip(b.ops, 400), "got": vh.Clip(b.got, 400), "goroutines": G})
+			}
+			n++
+		}
+		rep.CountN("concurrent-encode", G*iters)
 	}
 
 	flush()
